@@ -18,7 +18,7 @@ theorem procResult_a (g : Gen) (r : Option Fail) {s : St} (hs : Ha cfg s) (hie :
     cases r with
     | none => exact (autoCommit_a cfg true).step (by aleaf hx)
     | some f => exact (handleProcessorError_a cfg f).step (by aleaf hx)
-  generalize procFired cfg g r s = s1 at h1
+  obtain ⟨s1, e1, h1⟩ : ∃ s1, procFired cfg g r s = s1 ∧ HRel cfg s s1 := ⟨_, rfl, h1⟩
   have hres : ∀ passed, HRel cfg s (procResume cfg inner g passed s1) := by
     intro passed
     unfold procResume
@@ -31,6 +31,7 @@ theorem procResult_a (g : Gen) (r : Option Fail) {s : St} (hs : Ha cfg s) (hie :
       · exact h3.trans (finishFull_a hin h3.ha (h3.1.2.1.trans hie))
   unfold procResult
   simp only []
+  rw [e1]
   split
   · exact (commitAndStop_a hin).step (hres _)
   · exact hres _
